@@ -473,6 +473,13 @@ def scripts_c09(tier, rng):
         if len(lay) >= 3:
             mid = lay[1 + rng.below(len(lay) - 2)][0]
             out.append((f"{name}rm{mid}", pre + [f"fsop rm {mid}", "dir", "open", "st", READALL, "dir"]))
+            # the chunk before the newest missing while the newest holds no complete record
+            # (cut to nothing or inside its head): the hole must still be reported
+            before, newest = lay[-2], lay[-1]
+            for k in (0, 1 + rng.below(max(1, newest[3][1] - 1))):
+                out.append((f"{name}rm{before[0]}cut{k}",
+                            pre + [f"fsop rm {before[0]}", f"fsop cut {newest[0]} {k}", "dir", "open", "st", READALL,
+                                   "dir"]))
     # the read path: a record of a closed chunk altered while the store is live, entry not cached
     live = base_histories(rng, nb, max_ops=14, worker_steps=False, queries=(), payload_sizes=(1, 7, 40),
                           weights=dict(append=60, purge=2, truncate=3))
